@@ -42,9 +42,17 @@ def run(tier, seed):
     post: _
     \"\"\"
     return concrete(_func''')
+            if not quick:     # thorough: argument values from a seeded 3 x 3 of the 8 x 8 pool
+                s = s.replace('''    pre: sel(c0, c1) < 3
+    post: _
+    \"\"\"
+    return concrete(_func''', '''    pre: sel(c0, c1) < 3 and sel(a0, a1, a2) in %r and sel(b0, b1, b2) in %r
+    post: _
+    \"\"\"
+    return concrete(_func''' % (tuple(sorted(rnd.sample(range(8), 3))), tuple(sorted(rnd.sample(range(8), 3)))))
             h = Harness(ck, 'c17_func_t%d' % t, s); hs.append(h)
             batch.add(h, 300 if quick else 1500, only=['func_copy_ok'] + (['circular_copy_ok'] if t == 0 else []), ppt=120, bounds={
-                'func_copy_ok': 'template %d: compiled functions over 4 input lists (cells, name, 2x2 block) x %s argument values x 3 kinds of copy' % (t, '3 x 3' if quick else '8 x 8'),
+                'func_copy_ok': 'template %d: compiled functions over 4 input lists (cells, name, 2x2 block) x %s argument values x 3 kinds of copy' % (t, '3 x 3' if quick else '3 x 3 (seeded) of 8 x 8'),
                 'circular_copy_ok': 'a model with guarded circular references, 3 kinds of copy x 4 guard settings'})
         batch.run()
     finally:
